@@ -91,7 +91,8 @@ theorem ctor_lock_establishes (s : State) (hinv : Inv s.heap) (kids : List (Stri
   exact lock_establishes _ ia s.heap.size (by show s.heap.size < s.heap.size + 1; omega)
     (by unfold live; rw [alloc_node_self]) (.inl hnl)
 
-/-- `share_memory_()` keeps the heap well formed (children first, each finishing with `lock_()`). -/
+/-- `share_memory_()` keeps the heap well formed (children first; a TensorDict finishes with `lock_()`, a lazy stack registers
+itself with `_propagate_lock`, so that a lazy root is a flagged member of the lock graph and not a derived lock). -/
 theorem share_preserves (h : Heap) (hinv : Inv h) (r : Nat) (hr : r < h.size) : Inv (shareEv h r) :=
   inv_shareEv hinv hr
 
@@ -103,6 +104,7 @@ current source qualifies. -/
 def evOkB : Ev → Bool
   | .lazyOver ms _ => !ms.isEmpty
   | .mut _ m => m.eff.isWrite || m.guard.blocks m.kwBypass
+  | .mutPath _ _ m => m.eff.isWrite || m.guard.blocks m.kwBypass
   | _ => true
 def EvOk (e : Ev) : Prop := evOkB e = true
 instance (e : Ev) : Decidable (EvOk e) := inferInstanceAs (Decidable (evOkB e = true))
@@ -273,6 +275,13 @@ theorem inv_stepLive (s : State) (hinv : Inv s.heap) (e : Ev) (hok : EvOk e)
     · rename_i hh
       exact inv_gc hinv (by simpa using hh)
   | «mut» i m => exact inv_mutEv s.heap hinv i (ht i rfl).2 (ht i rfl).1 m (by simpa [EvOk, evOkB] using hok)
+  | mutPath i path m =>
+    simp only [stepLive, mutPathEv]
+    split
+    · rename_i t hw
+      have hlt := live_of_reach hinv (ht i rfl).1 (walk_reach _ _ _ _ hw)
+      exact inv_mutEv s.heap hinv t (lt_size_of_live hinv hlt) hlt m (by simpa [EvOk, evOkB] using hok)
+    · exact hinv
   | withLock i => exact inv_lockEv hinv (ht i rfl).2
   | withUnlock i =>
     simp only [stepLive]
